@@ -294,7 +294,7 @@ fn cli(args: &[String]) -> i32 {
                 let tier = doc.get("tier").and_then(|t| t.as_str()).and_then(coord::Tier::from_name).or_else(|| doc["origin"]["tier"].as_str().and_then(coord::Tier::from_name)).unwrap_or(coord::Tier::Quick);
                 let (prop, path) = (prop.clone(), path.clone());
                 coord::start_watchdog(coord::case_limit_s(tier), move |_, _, secs| {
-                    say!("  {prop}:no-return the case did not return within {secs} s of wall time");
+                    say!("  {prop}:no-return the case did not return within {secs} s of CPU time");
                     say!("VIOLATION property={} replay={}", prop, path);
                     unsafe { libc::_exit(1) };
                 });
